@@ -1,4 +1,5 @@
 import RF.Lemmas.Modules
+import RF.Lemmas.ModMacros
 
 /-!
 # C13  Exactly the reachable, non-excluded files are formatted, each once
@@ -24,7 +25,7 @@ and when the resolver succeeds the specification rejects nothing.  (With several
 declarations the specification has several kinds; the resolver reports the first in its walk.)
 -/
 namespace RF.Props.C13
-open RF.Modules RF.Lemmas.Modules
+open RF.Modules RF.Lemmas.Modules RF.Lemmas.ModMacros
 
 /-! ## Example trees used for non-vacuity and counter-examples -/
 
@@ -596,6 +597,217 @@ theorem span_matches_key_counterexample :
       (fun m => m.map fun e => (e.1, e.2.spanFile)) =
     .ok [(.real [bRs], .real [bRs]), (.real [aRs], .real [libRs]), (.real [libRs], .real [libRs])] :=
   rfl
+
+/-! ## Macro-based module discovery: `cfg_if!` / `cfg_match!`
+
+Model: `RF/Model/ModMacros.lean` (`SItem` = declarations, macro calls with their blocks, other items,
+unparsable tokens; `visitItemsS` … = the literal walk of `visit_mod_from_ast` / `visit_mod_outside_ast`
+/ `visit_cfg_if` / `visit_cfg_match`; `discItems` = the list of `mod` items that walk visits;
+`expItems` = the specification: what rustc has after expansion, over all `cfg` valuations, see the
+header of the model file for the rule and its justification). -/
+
+def yRs : Comp := ['y', '.', 'r', 's']
+def zRs : Comp := ['z', '.', 'r', 's']
+def y : Comp := ['y']
+
+/-- **visit_cfg_if is a sibling walk.** For every recursion into loaded files, every state and every
+item list: the walk of the code (a `mod` found in any block of a `cfg_if!`/`cfg_match!` call is handed
+to `visit_sub_mod` under the directory of the call, with its own attributes; inline modules are
+walked by the same loop; rejected macro bodies, nested calls and other items are passed over) is the
+walk `visitItemsW` of the flat list `discItems`. -/
+theorem visit_cfg_if_flattens (fs : FS) (rec : RecFn) (cur : FileName) (st : St)
+    (items : List SItem) :
+    visitItemsS fs rec cur st items = visitItemsW fs rec cur st (discItems items) :=
+  visitItemsS_eq fs rec cur st items
+
+/-- … hence `visit_crate` on a tree with macro calls is `visit_crate` on the tree of discovered
+declarations. -/
+theorem visit_crate_discovers (sfs : SFS) (fuel : Nat) (rootName : FileName) (rootSkip : Bool)
+    (rootItems : List SItem) (own : Ownership) (recursive : Bool) :
+    visitCrateS sfs fuel rootName rootSkip rootItems own recursive =
+      visitCrate (codeFS sfs) fuel rootName rootSkip (discItems rootItems) own recursive :=
+  visitCrateS_eq sfs fuel rootName rootSkip rootItems own recursive
+
+/-- **What is visited is what the parser returned**: `parse_cfg_if` / `parse_cfg_match` give all
+`mod` items of all blocks in source order, or nothing at all. -/
+theorem discovered_is_parsed (sh : MacShape) (bs : List (List SItem)) :
+    discItem (.cfgIf sh bs) = (match parseMacroBody sh bs with
+      | some mods => discItems mods
+      | none => []) ∧
+    discItem (.cfgMatch sh bs) = (match parseMacroBody sh bs with
+      | some mods => discItems mods
+      | none => []) :=
+  parse_then_visit sh bs
+
+/-- Every block counts, not only the first; an outer `#[path]` / `#[rustfmt::skip]` of a `mod` in a
+block is kept for `peek_sub_mod`; an inline module of a block keeps its content, macro calls inside
+it discovered in turn. -/
+example : discItems [.cfgIf .chain [[.ext x [.path ['w', '.', 'r', 's']], .other], [.ext y [.skip]],
+      [.inline z [] [.cfgMatch .chain [[.ext w []]]]]]]
+    = [.ext x [.path ['w', '.', 'r', 's']], .ext y [.skip], .inline z [] [.ext w []]] := rfl
+
+/-- **On tame trees the code discovers what the specification expands** (every macro call a
+well-formed chain, every block parses, no macro call directly inside a block). -/
+theorem discovery_matches_expansion (items : List SItem) (h : tameItems items = true) :
+    discItems items = expItems items :=
+  disc_eq_exp.2.1 items h
+
+example : tameItems [.cfgIf .chain [[.ext x [], .other], [.inline z [] [.cfgMatch .chain [[.ext w []]]]]]]
+    = true := by decide
+
+/-- lib.rs: `cfg_if! { if #[cfg(a)] { mod x; fn f() {} } else { mod y; mod x; } }`, x.rs: a
+`cfg_match!` with `mod w;` in its second arm; x/w.rs, y.rs, a decoy z.rs. -/
+def sfsGood : SFS :=
+  [ ([libRs], .file false false [.cfgIf .chain [[.ext x [], .other], [.ext y [], .ext x []]]]),
+    ([xRs], .file false false [.cfgMatch .chain [[], [.ext w []]]]),
+    ([x, wRs], .file false false []),
+    ([yRs], .file false false []),
+    ([zRs], .file false false []) ]
+
+def ctxsGoodS : List Ctx :=
+  [rootGood, ⟨[xRs], .owned (some x)⟩, ⟨[x, wRs], .owned (some w)⟩, ⟨[yRs], .owned (some y)⟩]
+
+/-- **resolver_refines_spec on trees with `cfg_if!` / `cfg_match!`, proved fragment.**  For a tame
+tree whose expansion satisfies the three hypotheses of `resolver_refines_spec_partial`: the key set
+of the file map `visit_crate` builds (walking macro bodies as the code does) is exactly the set of
+files of the expanded crate — every `mod x;` of every block is reachable and resolves like a sibling
+of the macro call —, or both sides report an error of the same kind.
+
+Without `htame` the statement is false in both directions: see the three `_counterexample`s. -/
+theorem resolver_refines_spec_macros_partial (sfs : SFS) (fuel : Nat) (root : Path)
+    (rootSkip g : Bool) (rootItems : List SItem) (own : Ownership)
+    (htame : sfsTame sfs = true) (htameRoot : tameItems rootItems = true)
+    (hplain : fsPlain (specFS sfs))
+    (hroot : nodeAt (specFS sfs) root = some (.file rootSkip g (expItems rootItems)))
+    (huniq : UniqueOwnership false (specFS sfs) ⟨root, own⟩)
+    (hprobe : ProbeAgrees (specFS sfs) ⟨root, own⟩) :
+    match visitCrateS sfs fuel (.real root) rootSkip rootItems own true with
+    | .ok m =>
+      (∀ k, k ∈ keys m ↔ ∃ p own', k = .real p ∧ Reach false (specFS sfs) ⟨root, own⟩ ⟨p, own'⟩) ∧
+      (∀ k, ¬ SpecErr false (specFS sfs) ⟨root, own⟩ k) ∧
+      ∀ e ∈ m, e.2.spanFile = e.1 ∧ (e.2.innerSkip = true ↔ e.1 = .real root ∧ rootSkip = true)
+    | .error k => k = .fuel ∨ SpecErr false (specFS sfs) ⟨root, own⟩ k := by
+  rw [visitCrateS_eq, codeFS_eq_specFS sfs htame, discovery_matches_expansion rootItems htameRoot]
+  exact resolver_refines_spec_partial (specFS sfs) fuel root rootSkip g (expItems rootItems) own
+    hplain hroot huniq hprobe
+
+/-- Non-vacuity: `sfsGood` satisfies the hypotheses; the resolver finds x.rs (declared in both
+blocks), x/w.rs (second arm of a `cfg_match!`) and y.rs (`else` block), not the decoy. -/
+example :
+    sfsTame sfsGood = true ∧ fsPlain (specFS sfsGood) ∧
+    UniqueOwnership false (specFS sfsGood) rootGood ∧ ProbeAgrees (specFS sfsGood) rootGood ∧
+    (visitCrateS sfsGood 5 (.real [libRs]) false
+        [.cfgIf .chain [[.ext x [], .other], [.ext y [], .ext x []]]] .unownedViaBlock true).map keys
+      = .ok [.real [xRs], .real [x, wRs], .real [yRs], .real [libRs]] :=
+  ⟨by decide, fsPlain_of_fsPlainB (by decide),
+   unique_of_uniqueB (S := ctxsGoodS) (by decide) (by decide) (by decide),
+   probeAgrees_of_B (S := ctxsGoodS) (by decide) (by decide) (by decide), rfl⟩
+
+/-- The decidable check the driver runs (`mod.hyps`, field `macros`) establishes `htame`; with
+`hypsB` on the expanded tree it establishes all hypotheses. -/
+theorem hyps_check_sound_macros (sfs : SFS) (rounds : Nat) (root : Path) (own : Ownership)
+    (h : (sfsTame sfs && hypsB (specFS sfs) rounds root own) = true) :
+    codeFS sfs = specFS sfs ∧ fsPlain (specFS sfs) ∧
+    UniqueOwnership false (specFS sfs) ⟨root, own⟩ ∧ ProbeAgrees (specFS sfs) ⟨root, own⟩ := by
+  rw [Bool.and_eq_true] at h
+  exact ⟨codeFS_eq_specFS sfs h.1, hypsB_sound h.2⟩
+
+example : (sfsTame sfsGood && hypsB (specFS sfsGood) 4 [libRs] .unownedViaBlock) = true := by decide
+
+/-- **`mod.resolve` vs `mod.spec` on trees with macro calls** (what the harness compares through
+`mod.resolvec` and `mod.oracle`): in the proved fragment the implementation model on the discovered
+tree and the specification on the expanded tree list the same files. -/
+theorem formatProject_matches_spec_macros_partial (sfs : SFS) (fuel fuel' : Nat) (p : Path)
+    (cfg : Config) (skip g : Bool) (items : List Decl)
+    (htame : sfsTame sfs = true)
+    (hplain : fsPlain (specFS sfs))
+    (hroot : nodeAt (specFS sfs) p = some (.file skip g items))
+    (huniq : UniqueOwnership false (specFS sfs)
+      ⟨p, (toDirectoryOwnership (specFS sfs) p).getD .unownedViaBlock⟩)
+    (hprobe : ProbeAgrees (specFS sfs)
+      ⟨p, (toDirectoryOwnership (specFS sfs) p).getD .unownedViaBlock⟩) :
+    match formatProject (codeFS sfs) fuel (.file p) cfg, specFormatted (specFS sfs) fuel' p cfg with
+    | .ok names, .ok ps => ∀ k, k ∈ names ↔ ∃ q, k = .real q ∧ q ∈ ps
+    | .ok _, .error k' => k' = .fuel ∨ k' = .circular
+    | .error k, .ok _ => k = .fuel
+    | .error _, .error _ => True := by
+  rw [codeFS_eq_specFS sfs htame]
+  exact formatProject_matches_spec_partial (specFS sfs) fuel fuel' p cfg skip g items hplain hroot
+    huniq hprobe
+
+/-- lib.rs: `cfg_if! { if #[cfg(a)] { cfg_if! { if #[cfg(b)] { mod x; } } mod y; } }`, x.rs, y.rs. -/
+def sfsNested : SFS :=
+  [ ([libRs], .file false false [.cfgIf .chain [[.cfgIf .chain [[.ext x []]], .ext y []]]]),
+    ([xRs], .file false false []),
+    ([yRs], .file false false []) ]
+
+/-- **Counter-example 1 (nested call).** A `cfg_if!` directly inside a block of a `cfg_if!` is an item
+of kind `MacCall`, which `parse_cfg_if` drops: `mod x;` of the inner call is never visited and
+x.rs is never formatted, although rustc compiles it when both `cfg`s hold. -/
+theorem discovery_counterexample_nested :
+    (visitCrateS sfsNested 5 (.real [libRs]) false
+        [.cfgIf .chain [[.cfgIf .chain [[.ext x []]], .ext y []]]] .unownedViaBlock true).map keys
+      = .ok [.real [yRs], .real [libRs]] ∧
+    reachable (specFS sfsNested) 5 [libRs] (itemsAt (specFS sfsNested) [libRs]) .unownedViaBlock
+      = .ok [[xRs], [yRs]] := ⟨rfl, rfl⟩
+
+/-- lib.rs: `cfg_if! { if #[cfg(a)] { mod x; } else { this is junk } }`, x.rs. -/
+def sfsJunk : SFS :=
+  [ ([libRs], .file false false [.cfgIf .chain [[.ext x []], [.junk]]]),
+    ([xRs], .file false false []) ]
+
+/-- **Counter-example 2 (all or nothing).** One block whose tokens `parse_item` rejects makes
+`parse_cfg_if` return `Err`, and the `mod x;` already collected from the first block is thrown away
+with it: x.rs is never formatted.  For rustc the `else` block is a token tree that is only parsed
+when it is selected; with `a` set the crate compiles and contains x.rs. -/
+theorem discovery_counterexample_junk_branch :
+    (visitCrateS sfsJunk 5 (.real [libRs]) false [.cfgIf .chain [[.ext x []], [.junk]]]
+        .unownedViaBlock true).map keys = .ok [.real [libRs]] ∧
+    reachable (specFS sfsJunk) 5 [libRs] (itemsAt (specFS sfsJunk) [libRs]) .unownedViaBlock
+      = .ok [[xRs]] := ⟨rfl, rfl⟩
+
+/-- lib.rs: `cfg_if! { if #[cfg(a)] { mod x; } else { mod y; } else { mod z; } }`. -/
+def sfsLoose : SFS :=
+  [ ([libRs], .file false false [.cfgIf .loose [[.ext x []], [.ext y []], [.ext z []]]]),
+    ([xRs], .file false false []), ([yRs], .file false false []), ([zRs], .file false false []) ]
+
+/-- **Counter-example 3 (the other direction).** `parse_cfg_if` accepts chains the macro itself
+rejects (a second `else` block): the files are formatted although no `cfg` valuation makes them part
+of a crate that compiles. -/
+theorem discovery_counterexample_loose_chain :
+    (visitCrateS sfsLoose 5 (.real [libRs]) false
+        [.cfgIf .loose [[.ext x []], [.ext y []], [.ext z []]]] .unownedViaBlock true).map keys
+      = .ok [.real [xRs], .real [yRs], .real [zRs], .real [libRs]] ∧
+    reachable (specFS sfsLoose) 5 [libRs] (itemsAt (specFS sfsLoose) [libRs]) .unownedViaBlock
+      = .ok [] := ⟨rfl, rfl⟩
+
+/-- **each_file_once with macro calls**: the same `mod x;` in two blocks (both name the same file), or
+any other number of routes: one entry per path. -/
+theorem each_file_once_macros (sfs : SFS) (fuel : Nat) (rootName : FileName) (rootSkip : Bool)
+    (rootItems : List SItem) (own : Ownership) (recursive : Bool) (m : List (FileName × Mod))
+    (h : visitCrateS sfs fuel rootName rootSkip rootItems own recursive = .ok m) :
+    (keys m).Nodup := by
+  rw [visitCrateS_eq] at h
+  exact each_file_once _ _ _ _ _ _ _ _ h
+
+/-- `cfg_if! { if #[cfg(a)] { mod x; } else { mod x; } }`: x.rs once. -/
+example : (visitCrateS sfsJunk 5 (.real [libRs]) false [.cfgIf .chain [[.ext x []], [.ext x []]]]
+    .unownedViaBlock true).map keys = .ok [.real [xRs], .real [libRs]] := rfl
+
+/-- **directory_restored with macro calls**: after any item — a `mod`, an inline module with macro
+calls inside, a `cfg_if!` / `cfg_match!` call with any number of blocks — the resolver's directory
+is what it was, so the `mod`s of a block resolve like siblings of the call, independently of the
+blocks before them. -/
+theorem directory_restored_macros (fs : FS) (rec : RecFn) (cur : FileName) (st st' : St)
+    (it : SItem) (h : visitItemS fs rec cur st it = .ok st') : st'.dir = st.dir := by
+  rw [(visitS_eq fs rec cur).1 it st] at h
+  exact visitItemsW_dir fs rec cur _ st st' h
+
+theorem directory_restored_items_macros (fs : FS) (rec : RecFn) (cur : FileName)
+    (items : List SItem) (st st' : St) (h : visitItemsS fs rec cur st items = .ok st') :
+    st'.dir = st.dir := by
+  rw [visitItemsS_eq] at h
+  exact visitItemsW_dir fs rec cur _ st st' h
 
 /-! ## Fuel -/
 
